@@ -276,11 +276,15 @@ func registerVerif(p *Program) {
 		return t
 	})
 	p.reg("verif:verifChoice", func(e *Exec, g *G, a []Value) Value {
-		// forks concretely over 0..n-1
-		t := e.input(strArg(a[0]), BV(64))
-		n := a[1].(*Term)
-		e.assume(e.tc.Cmp(OULT, t, n))
-		return e.tc.Const(64, e.concretize(t, "verifChoice"))
+		// forks concretely over 0..n-1 (always feasible: no solver query)
+		name := strArg(a[0])
+		n := int(e.concretize(a[1].(*Term), "verifChoice n"))
+		k := e.pick(n, "choice:"+name)
+		cnt := e.inputCnt[name]
+		e.inputCnt[name] = cnt + 1
+		t := e.tc.Const(64, uint64(k))
+		e.inputs = append(e.inputs, inputRec{fmt.Sprintf("%s#%d", name, cnt), t})
+		return t
 	})
 	p.reg("verif:verifConcretize", func(e *Exec, g *G, a []Value) Value {
 		t := a[0].(*Term)
